@@ -38,12 +38,13 @@ type Oracle interface {
 
 // OCtx gives oracles access to the scenario, the rig and the witness counters.
 type OCtx struct {
-	Sc   *Scenario
-	Rig  *Rig
-	Rig2 *Rig // second, independently constructed instance (determinism runs)
-	wit  map[string]int64
-	outc map[string]int64
-	maps *mapOrderStats
+	Sc     *Scenario
+	Rig    *Rig
+	Rig2   *Rig // second, independently constructed instance (determinism runs)
+	InCont bool // inside the continuation of a memory-carrying process: Rig is that process's keeper
+	wit    map[string]int64
+	outc   map[string]int64
+	maps   *mapOrderStats
 }
 
 func (x *OCtx) Wit(clause string) { x.wit[clause]++ }
@@ -162,7 +163,7 @@ type expandResult struct {
 	viols  []Violation // step violations (edge)
 	inv    []Violation // invariant violations (target state)
 	self   bool
-	halt   bool // the end-of-block routine panicked: the chain has halted, this state has no future
+	halt   bool    // the end-of-block routine panicked: the chain has halted, this state has no future
 	extra  []Found // violations found in the continuation of a process whose keeper memory was changed (trace = suffix after the parent)
 }
 
@@ -508,6 +509,7 @@ func (e *Engine) dirtyContinuation(x *OCtx, pre *State, a Action) []Found {
 	var rec func(seq []string)
 	run := func(seq []string) (next []Action) {
 		D, F := NewRig(e.Sc.Rig), NewRig(e.Sc.Rig)
+		x := &OCtx{Sc: x.Sc, Rig: D, wit: x.wit, outc: x.outc, InCont: true}
 		s, res0 := Exec(D, e.Sc, pre, a)
 		preV := D.Decode(pre)
 		mon := ParseMon(pre.Mon)
